@@ -17,7 +17,7 @@ OUTSIDE = ('task-granularity interleaving only: a worker finishing a task *while
 _POOL = {
     'engine': 'cbmc', 'shims': ['moodycamel', '../harness/C04/shim'],
     'repo_sources': ['dispenso/detail/per_thread_info.cpp', 'dispenso/task_set.cpp'],
-    'spin_loops': True, 'checks': ['--no-standard-checks', '--div-by-zero-check', '--bounds-check'], 'timeout': int(__import__('os').environ.get('DEV_TIMEOUT', 900)), 'must_reach': 'all',
+    'spin_loops': True, 'checks': ['--no-standard-checks', '--div-by-zero-check', '--bounds-check'], 'timeout': 1700, 'must_reach': 'all',
 }
 _OPN = {0: 'schedule(f)', 1: 'schedule(f, ForceQueuingTag)', 2: 'scheduleBulk(n, gen)', 3: 'scheduleBulk(n, gen, ForceQueuingTag)'}
 _FINN = {0: 'wait() then destructor', 1: 'tryWait(k<=%d), wait(), destructor', 2: 'destructor only'}
@@ -63,10 +63,9 @@ INSTANCES = [
     # quick tier: one submission (all four entry points split over two masks), both set kinds, wait / tryWait / destructor
     bar(1, 1, cost=1, fin=0, nsub=1, mask=3, tiers=_Q),
     bar(0, 1, fin=0, nsub=1, mask=3, tiers=_Q),
-    bar(1, 2, cost=0, fin=1, nsub=1, mask=12, tiers=_Q),
-    bar(0, 2, fin=2, nsub=1, mask=12, tiers=_Q),
-    bar(1, 1, cost=1, fin=0, nsub=1, mask=3, nest=1, tiers=_Q),
-    bar(1, 1, cost=1, fin=0, nsub=2, mask=5, tiers=_Q),
+    # measured too slow for the quick tier on the shared machine (600 s / > 900 s with 6 instances in parallel): thorough only
+    bar(1, 1, cost=1, fin=0, nsub=2, mask=5), bar(1, 2, cost=0, fin=1, nsub=1, mask=12), bar(0, 2, fin=2, nsub=1, mask=12),
+    bar(1, 1, cost=1, fin=0, nsub=1, mask=3, nest=1),
     # thorough tier: two / three submissions, remaining combinations, cancel()
     bar(1, 1, cost=1, fin=0, nsub=2, mask=15), bar(0, 1, fin=0, nsub=2, mask=15), bar(1, 2, cost=0, fin=1, nsub=2, mask=15),
     bar(0, 2, fin=1, nsub=2, mask=15), bar(1, 0, cost=1, fin=0, nsub=2, mask=15), bar(0, 0, fin=2, nsub=2, mask=15),
